@@ -39,6 +39,12 @@ var (
 // 预编译正则表达式用于页眉页脚变量替换
 var headerFooterVarPattern = regexp.MustCompile(`\{\{(\w+)\}\}`)
 
+// 页眉页脚XML中被拆分到多个Run里的变量占位符：占位符的字符之间可以夹着标签
+// （例如 {{na</w:t></w:r><w:r><w:rPr>...</w:rPr><w:t>me}}）
+var headerFooterSplitVarPattern = regexp.MustCompile(`\{(?:<[^<>]*>)*\{(?:(?:<[^<>]*>)*\w)+(?:<[^<>]*>)*\}(?:<[^<>]*>)*\}`)
+
+// 用于取出/去掉占位符字符之间的标签
+var xmlTagPattern = regexp.MustCompile(`<[^<>]*>`)
 
 // TemplateEngine 模板引擎
 type TemplateEngine struct {
@@ -1938,6 +1944,21 @@ func (te *TemplateEngine) replaceVariablesInXMLPart(xmlData []byte, data *Templa
 		if value, exists := data.Variables[varName]; exists {
 			// 对XML内容进行转义
 			return te.escapeXMLContent(te.interfaceToString(value))
+		}
+		return match // 保持原样
+	})
+
+	// 替换被拆分到多个Run中的变量：值放在占位符开始的位置，
+	// 夹在占位符字符之间的标签原样保留，这样各个Run及其格式都还在
+	content = headerFooterSplitVarPattern.ReplaceAllStringFunc(content, func(match string) string {
+		tags := xmlTagPattern.FindAllString(match, -1)
+		if len(tags) == 0 || strings.Contains(match, "</w:p>") {
+			return match
+		}
+		placeholder := xmlTagPattern.ReplaceAllString(match, "")
+		varName := strings.TrimSuffix(strings.TrimPrefix(placeholder, "{{"), "}}")
+		if value, exists := data.Variables[varName]; exists {
+			return te.escapeXMLContent(te.interfaceToString(value)) + strings.Join(tags, "")
 		}
 		return match // 保持原样
 	})
